@@ -955,7 +955,7 @@ class ProxyLayer:
     pass, recorded in the evidence and redrawn as the stratum's CORE member, which must compile."""
     SHAPES = [(3, 5), (5, 3), (4, 4), (2, 4), (4, 2)]       # closed under transposition
     FORMS = ["dense_r", "dense_c", "repeat", "outer", "diagonal", "identity", "constant", "prod", "concat_right",
-             "concat_down", "broadcast", "repeat_broadcast"]
+             "concat_down", "broadcast", "repeat_broadcast", "repeat_blockwise"]
     PROXIES = ["subrange", "rows", "columns", "row", "column", "diag", "trans"]
     WRAPS = ["none", "none", "scale", "unary", "add_dense", "dense_add", "minus", "binary", "add_same", "add_scalar"]
 
@@ -1013,6 +1013,9 @@ class ProxyLayer:
         if name == "dense_c": return self.dense(r, c, True)
         if name == "repeat": return ("MRepeat", False, self.vec(c), r)
         if name == "repeat_broadcast": return ("MRepeat", False, ("VAdd", self.vec(c, True), ("VConst", c, self.const())), r)
+        if name == "repeat_blockwise":
+            # repeat of a BLOCK-WISE vector expression (scaled matrix-vector product): the repeater evaluates it into the target blockwise
+            k = rng.choice([2, 3, 4]); return ("MRepeat", False, ("VScale", self.const(), ("VMv", 1, self.dense(c, k), self.vec(k))), r)
         if name == "outer": return ("MOuter", self.vec(r), self.vec(c))
         if name == "diagonal": return ("MDiagM", self.vec(r)) if r == c else None
         if name == "identity": return ("MDiagM", ("VConst", r, 1)) if r == c else None
@@ -1186,6 +1189,8 @@ for _p in ("subrange", "rows", "columns", "row", "column", "diag"):
 for _p in ("rows", "columns"):
     for _f in ("diagonal", "identity"):
         EXCLUDED_STRATA[(_p, _f)] = "matrix_rows_optimizer<diagonal_matrix> is a commented-out stub: rows()/columns() of a diagonal matrix do not compile"
+for _p in ("row", "column"):
+    EXCLUDED_STRATA[(_p, "repeat_blockwise")] = "column(repeat(e,n), j) / row(trans(repeat(e,n)), j) is the constant vector of ELEMENT j of e: a block-wise vector expression has no element access (rejected at compile time); the whole row/column pair is left out"
 EXCLUDED_STRATA[("diag", "prod")] = "known finding C01-DIAGPROD: matrix_diagonal_optimizer<matrix_matrix_prod> is a commented-out stub"
 
 
